@@ -113,7 +113,7 @@ theorem down_finish {P : Par} (hP : P.Ok) {out : List Nat} {w : W} {sq : Int} {o
   have hq2 : quiet P.u w2 = false := quiet_false_of_down _ _ _ _ hw2down
   have hpf := pingFacts c1
   have hcst := cstat_pingState hc1st
-  generalize hrq : (Client.Rq.mk (pkt.length : Int) (pingState c1).chunkid P.ty 0 (name.headD 0) pkt) = rq
+  generalize hrq : (Client.Rq.mk (pkt.length : Int) (pingState c1).chunkid (answerType P.ty) 0 (name.headD 0) pkt) = rq
   have hci : cliInput (.ans (pingState c1).chunkid P.ty name pkt) = .rq rq := by subst hrq; rfl
   have hidle : Client.isSending (pingState c1) = false := by
     unfold Client.isSending; rw [hpf.outpkt, hc1fr]; exact h.idleC
